@@ -20,13 +20,13 @@ CHECKS = {
             'Decided structural clause only: SOURCE is the public wgsl_source parameter itself interpolated as one string literal, or include_str!(the given path unmodified), selected solely by the presence of the path; wrappers forward their parameters unchanged (MIR); create_shader_module hands Cow::Borrowed(SOURCE) to ShaderSource::Wgsl; the parsed text is the same parameter. The escaping/printing round-trip of arbitrary strings through proc-macro2/syn/prettyplease/rustfmt is a library law and is NOT decided.',
             'Trusted: proc-macro2 Literal::string escaping; syn/prettyplease/rustfmt preserve literal tokens.',
             'DESIGN.md section 3 C16'),
-    'C12': ('hole-provenance / predicate-agreement rules on the OverrideConstants templates and the entry helpers (syn-based abstract interpreter)',
-            'Structural clauses: one field per override (unfiltered), name identity, scalar type table; Option<..>, the required list and the optional-insert list are all decided by the same atom init.is_some() with the right polarity; key = @id.to_string() else name for both lists; bool -> if x {1.0} else {0.0}, other scalars -> x as f64 with x the same override\'s field; map = required entries + optional inserts, returned; helper parameter / overrides.constants() / struct emission all iff the module has overrides (evaluated on all combinations); vertex_state/fragment_state forward &entry.constants.',
-            'Trusted: Engine A semantics; naga\'s override resolution (keys by decimal id or name, f64 values).',
+    'C12': ('dependence rule on the extracted override section + instantiation of the extracted grammar over complete model override lists (syn-based abstract interpreter; the generator is never run)',
+               "The override section is shown to read only module.overrides[*].{name,id,ty,init} and module.types; it is then instantiated on model lists enumerating scalar kind {bool,i32,u32,f32} x @id present/absent x default present/absent completely, in two worlds with different names, ids and order (thorough: 24 more seeded sub-lists), and every piece of the instantiated text is compared with the property: one field per override, named after it, Option<..> iff it has a default; each override in exactly one of the required list / optional inserts; key = decimal @id else the name; value = bool ? `if x {1.0} else {0.0}` : `x as f64` on the same override's field; `entries` returned; nothing for a module without overrides; entry helpers take/pass the map iff the module has overrides (evaluated on all combinations); vertex_state/fragment_state forward &entry.constants. Independent of how the source splits the work (closures, helper struct with methods, partition).",
+               'Trusted: Engine A semantics; naga\'s override resolution (keys by decimal id or name, f64 values).',
             'DESIGN.md section 3 C12'),
-    'C13': ('hole-provenance rules on the push-constant range template and its wiring (syn-based abstract interpreter)',
-            'Structural clauses: range is `PushConstantRange { stages: PUSH_CONSTANT_STAGES, range: 0..n }` with n the unmodified byte size of the type of the global selected by space == PushConstant; stage set = map.get(name of that global) else entry stages, printed by quote_shader_stages; range and constant are the two halves of one Option under one condition; single optional range hole; the map is the stage walker\'s map (C03) and the fallback the union of the 3-row stage table over all entry points.',
-            'Trusted: Engine A semantics; naga sizes; C03 rules for the content of the stage map.',
+    'C13': ('hole-provenance rules on the summary of the top-level function (every helper inlined) + adopted stage-walk rules of C03 (syn-based abstract interpreter)',
+               'Structural clauses, decided where the range reaches the pipeline layout so that free functions, closures or a helper struct with methods give the same result: range is `PushConstantRange { stages: PUSH_CONSTANT_STAGES, range: 0..n }` with n the unmodified byte size (TypeInner::size(ctx) or Layouter[ty].size - not a stride) of the type of the global selected by space == PushConstant; range and constant present under one condition that is (truth table) "some global has space PushConstant"; single optional range hole; stage set = map.get(name of that global) else entry stages (decision-list comparison), the map being the stage walker\'s and the fallback the union of the 3-row stage table over all entry points (evaluated on model entry lists); C03\'s traversal / propagation / seeding rules are evaluated in the same run because the statement includes "the stages using the variable".',
+               'Trusted: Engine A semantics; naga sizes; C03 rules for the content of the stage map.',
             'DESIGN.md section 3 C13'),
     'C07': ('hole-provenance rules on the vertex attribute / buffer-layout templates + exhaustive vertex-format table lookup + sort-then-dedup discipline',
             'Structural clauses: one attribute per Binding::Location member of the argument struct (builtins skipped, no other filter), location/offset_of!/format all from the same member, count = length of the same list, impl/stride/attributes name the struct itself; the format table is looked up on all 16 reachable (scalar kind, width, component count) points; impl blocks once per struct (sort(key) then dedup(same key), unfiltered); per-entry helper lists one layout per struct argument in argument order with step-mode parameters declared by the same iteration and N = length of the same list.',
@@ -44,17 +44,17 @@ CHECKS = {
             'Every Handle<Type> field of naga::TypeInner (from the pinned source) is followed unconditionally by the closure function, which inserts every visited handle and is seeded from all global variables; the extracted emission predicate over shape-recognised atoms A/B/C is equivalent to (not A and B) or C on all 8 rows; only TypeInner::Struct yields items; the assembled output has exactly one producer of user struct items, a plain pass over module.types (UniqueArena).',
             'Trusted: naga stores each type once; Engine A semantics.',
             'DESIGN.md section 3 C08'),
-    'C09': ('extracted derive/repr/assert guards evaluated over the full 64-row truth table + option non-interference over the output grammar',
-            'Exhaustive over a finite domain: the guards of every pushed derive, of #[repr(C)] and of the layout assertions are extracted from the source and evaluated for all 64 assignments of the six atoms (4 switches, host-shareable, ends-in-runtime-array) against the property\'s table, including exactly the documented panic rows; no other section of the assembled output (and no condition outside the struct section) reads a WriteOptions field other than the validate/rustfmt gates.',
-            'Trusted: Engine A semantics; derive macros behave as documented; validate/rustfmt gates are C17/C19.',
+    'C09': ('per-row instantiation of the extracted struct item over the full 64-row truth table + option non-interference over the output grammar',
+               "Exhaustive over a finite domain: for all 64 assignments of the six atoms (4 switches, host-shareable, ends-in-runtime-array) the struct item is instantiated (names, members, sizes symbolic) and the derive list, #[repr(C)] and the layout assertions are read from the text and compared with the property's table, including exactly the documented panic rows - whichever helper, early return or template produces them; the host-shareable atom is membership in the closure set of all module-scope variable types (closure discipline rule); no other section of the assembled output (and no condition outside the struct section) reads a WriteOptions field other than the validate/rustfmt gates.",
+               'Trusted: Engine A semantics; derive macros behave as documented; validate/rustfmt gates are C17/C19.',
             'DESIGN.md section 3 C09'),
     'C06': ('output-grammar provenance rules + exhaustive leaf-type table lookup (syn-based abstract interpreter)',
             'Structural clauses on the struct item template: fields iterate the member list in order, filtered only by not-builtin, names by identity, type hole = the type table on module.types[member.ty] under options.matrix_vector_types; the table is looked up at the use site over its whole finite leaf domain (scalars, atomics, vec2-4, 9 matrix shapes x f32/f64 x Rust/Glam/Nalgebra) against oracle formulas; array/struct/runtime-array rows checked structurally.',
             'Trusted: Engine A semantics; oracle formulas of DESIGN appendix A.3; rustc layout is C05\'s subject.',
             'DESIGN.md section 3 C06'),
-    'C15': ('decision-table rule over naga::Literal (variants/payload types read from the pinned naga source) on the extracted constant template',
-            'For every Literal variant: declared type token == payload Rust type, value hole == the bound payload with an empty conversion chain; name identity; only has-a-name / is-literal filters; non-literal expressions yield no item. Since quote prints suffixed literals of the payload type, type and value agree for every constant.',
-            'Trusted: Engine A semantics; float printing/parsing round-trip in proc-macro2/syn/prettyplease/rustfmt (library law).',
+    'C15': ('payload-operation whitelist on the extracted constants section + instantiation over a complete model constant list (syn-based abstract interpreter; the generator is never run)',
+               "The section reads only module.constants[*].{name,init}, global_expressions and types, and applies to a literal's payload only value-preserving operations (identity, sign test / abs to print sign and magnitude separately, comparison with zero - no cast, arithmetic or formatting). It is instantiated on a model list holding, for every variant of naga::Literal (read from the pinned naga source), boundary and ordinary values (0, -0.0, negative, extreme; thorough: 60 more seeded values per type), every scalar zero-value constructor, non-scalar zero values, a non-literal expression and an unnamed constant; the result must be exactly one `pub const <name>: <payload type> = <payload as a literal of that type>;` per named scalar literal / scalar zero value, in order, and nothing else.",
+               'Trusted: Engine A semantics; float printing/parsing round-trip in proc-macro2/syn/prettyplease/rustfmt (library law).',
             'DESIGN.md section 3 C15'),
     'C02': ('abstract interpretation of the generator (syn) -> extracted decision table, exhaustive lookup over the finite domain of WGSL resource types vs. a wgpu-core oracle',
             'Exhaustive over a finite domain: the `ty:` decision table of the layout-entry template is extracted from the source and looked up at every WGSL-spellable resource type (703 points enumerated from the pinned naga source: buffers x address spaces, sampled/depth/multisampled textures x 6 view dimensions, all 41 storage formats x 4 accesses x 4 dimensions, samplers); the emitted wgpu::BindingType tokens are compared with an oracle transliterated from wgpu-core 24 (check_binding_use, map_storage_format_to_naga, create_bind_group_layout entry rules). Visibility (C03 rules) is evaluated in the same run because the statement includes it.',
